@@ -184,7 +184,11 @@ pub type Vary = extensions::RuleSet<Settings>;
 impl Vary {
     /// Gets the [`Settings`] from the ruleset using the path of `request`.
     pub fn rules_from_request<'a, T>(&'a self, request: &Request<T>) -> Cow<'a, Settings> {
-        self.get(request.uri().path())
+        self.rules_from_path(request.uri().path())
+    }
+    /// Gets the [`Settings`] from the ruleset using `path`.
+    pub fn rules_from_path(&self, path: &str) -> Cow<'_, Settings> {
+        self.get(path)
             .map_or_else(|| Cow::Owned(Settings::default()), Cow::Borrowed)
     }
 }
